@@ -55,6 +55,9 @@ var props = map[string]propCfg{
 	"C10": {quick: 60000, thorough: 6000000, level: "exploration", stallS: 120, engine: "E3 seeded replay of the product's random stream under different map orders and clocks (in-process)",
 		components: "real: the 12 randomised operations of align.Alignment / SeqBag on top of the global math/rand stream seeded through rand.Seed as cmd/root.go does; environment: map-order and clock seams spliced by seamgen; stubs: none",
 		assumptions: []string{"the harness module sets godebug randseednop=0 so that rand.Seed seeds the global stream as it does in the shipped binary (built from a go 1.21 module)", "support claims: 400 product seeds per run, every required outcome has probability >= 1/6 per execution on correct code, so a missing outcome has probability below 1e-30 (union bound over at most 25 outcomes)", "fractions are dyadic and lengths multiples of 4 so that floor(frac*L) is the same in real and floating-point arithmetic"}},
+	"C01": {quick: 2000000, thorough: 150000000, level: "exploration", stallS: 120, engine: "E4 operation histories against a list-of-rows reference model",
+		components: "real: align.Alignment / align.SeqBag and every operation of the history (AddSequence, Append, Concat, Rename, RenameRegexp, CleanNames, TrimNames, TrimNamesAuto, AppendSeqIdentifier, Sort, ShuffleSequences, FilterLength, Deduplicate, RemoveGapSeqs, RemoveGapSites, TrimSequences, Translate, Clone, Sample, Clear, SubAlign, Unalign, Replace, ToUpper, ToLower, IgnoreIdentical) and all accessors; environment: the simulated client (history generator), per-operation random seeds, map-order seam; stubs: none",
+		assumptions: []string{"the reference model implements each operation from its documentation comment; where the comment does not fix the result (name cleaning / trimming, gap and character filters, translation, trimming) the operation is held to the invariants only and the model is re-read from the container", "by-name lookups are only compared for names that are unique in the container (the statement excepts names the caller made equal)", "no goroutine, stream or clock is involved: what is simulated is the client's history, including operations that must be rejected"}},
 	"C03": {quick: 2000000, thorough: 150000000, level: "fault_enumeration", stallS: 60, vlimitKB: 8 << 20, acceptExitDeath: true, engine: "E2 simulated stream with fault injection",
 		components: "real: the 6 lexers and 7 parsers (fasta, phylip strict/relaxed incl. ParseMultiple, nexus, clustal, stockholm, partition), utils.ParseAlignmentAuto, utils.ParseMultiAlignmentsAuto and its parser goroutine, bufio; environment: simFile (io.Reader + io.Closer: fragmentation, empty reads, EOF style, read errors, post-EOF read budget), os.Exit seam; stubs: none",
 		assumptions: []string{"a parser that asks the stream for more data 10000 times after the end was reported is looping (the budget is far above what bufio and the lexers need: they stop at the first EOF token)", "an out-of-memory death of a worker under an 8 GiB address-space limit counts as a crash caused by the input", "seeded search samples the fault space; only the stated sweeps (every prefix / every structural byte of the corpus files) are exhaustive"}},
